@@ -238,9 +238,9 @@ def check(ctx):
     obs.append(o)
     PFC = P.cls('PartFlowController')
     sorter = P.lookup(PFC, 'downstream_priority_sorter')
-    keyf = P.lookup(PFC, '_downstream_sorting_key_generator')
     o.count()
     oks = False
+    keyexpr = None
     if sorter and sorter[1] == 'method':
         fn = sorter[2]
         rets = [r for r in ast.walk(fn) if isinstance(r, ast.Return)]
@@ -249,33 +249,49 @@ def check(ctx):
             kws = {k.arg: k.value for k in cl.keywords}
             rev = kws.get('reverse')
             if len(cl.args) == 1 and ast.unparse(cl.args[0]) == fn.args.args[0].arg and 'key' in kws \
-                    and ast.unparse(kws['key']) in ('PartFlowController._downstream_sorting_key_generator',) \
                     and (rev is None or (isinstance(rev, ast.Constant) and rev.value is False)):
                 oks = True
+                keyexpr = kws['key']
     if not oks:
-        o.fail(P, 'PartFlowController.downstream_priority_sorter', 'sorted(downstream, key=PartFlowController._downstream_sorting_key_generator)',
+        o.fail(P, 'PartFlowController.downstream_priority_sorter', 'sorted(downstream, key=<waiting-since key>)',
                'candidates are not sorted ascending by the waiting-since key', file=PFC.mod.path, line=sorter[2].lineno if sorter else PFC.node.lineno)
     else:
         o.witness('sorted-ascending')
+    # the key: waiting-since, with None (not waiting) mapped to +infinity -- whatever the key function is called and however it is spelled
     o.count()
     okk = False
-    if keyf and keyf[1] == 'method':
-        fn = keyf[2]
-        p = fn.args.args[0].arg
-        body = [s for s in fn.body if not (isinstance(s, ast.Expr) and isinstance(s.value, ast.Constant))]
-        if len(body) == 2 and isinstance(body[0], ast.If) and ast.unparse(body[0].test).replace(' is ', ' == ') == f'{p}.waiting_for_part_start_time == None' \
-                and len(body[0].body) == 1 and isinstance(body[0].body[0], ast.Return) and ast.unparse(body[0].body[0].value) in ("float('inf')", 'math.inf', 'inf') \
-                and not body[0].orelse and isinstance(body[1], ast.Return) and ast.unparse(body[1].value) == f'{p}.waiting_for_part_start_time':
-            okk = True
-        if len(body) == 1 and isinstance(body[0], ast.Return) and isinstance(body[0].value, ast.IfExp):
-            v = body[0].value
-            t = ast.unparse(v.test).replace(' is ', ' == ').replace(' is not ', ' != ')
-            if (t == f'{p}.waiting_for_part_start_time == None' and ast.unparse(v.body) == "float('inf')" and ast.unparse(v.orelse) == f'{p}.waiting_for_part_start_time') or \
-               (t == f'{p}.waiting_for_part_start_time != None' and ast.unparse(v.orelse) == "float('inf')" and ast.unparse(v.body) == f'{p}.waiting_for_part_start_time'):
-                okk = True
+    INF = ("float('inf')", 'math.inf', 'inf', 'float("inf")')
+    kname = None
+    if isinstance(keyexpr, ast.Attribute) and isinstance(keyexpr.value, ast.Name) and keyexpr.value.id in ('PartFlowController', 'cls'):
+        kname = keyexpr.attr
+    if kname and P.lookup(PFC, kname) and P.lookup(PFC, kname)[1] == 'method':
+        kfn = P.lookup(PFC, kname)[2]
+        kp = [a_.arg for a_ in kfn.args.args if a_.arg not in ('self', 'cls')][0]
+
+        def m_none(test, frame, kp=kp):
+            if isinstance(test, ast.Compare) and len(test.ops) == 1:
+                l, r = test.left, test.comparators[0]
+                if isinstance(l, ast.Constant) and l.value is None:
+                    l, r = r, l
+                if isinstance(r, ast.Constant) and r.value is None and ast.unparse(l) == f'{kp}.waiting_for_part_start_time':
+                    if isinstance(test.ops[0], (ast.Eq, ast.Is)):
+                        return True
+                    if isinstance(test.ops[0], (ast.NotEq, ast.IsNot)):
+                        return False
+            return None
+        cases = dv.return_cases(ctx, PFC, kname, [('#notwaiting', m_none)])
+        okk = bool(cases.get(('T',))) and cases[('T',)] <= set(INF) and cases.get(('F',)) == {f'{kp}.waiting_for_part_start_time'}
+        o.stats['sorting_key_cases'] = {k[0]: sorted(v) for k, v in cases.items()}
+    elif isinstance(keyexpr, ast.Lambda) and len(keyexpr.args.args) == 1:
+        kp = keyexpr.args.args[0].arg
+        v = keyexpr.body
+        if isinstance(v, ast.IfExp):
+            t = ast.unparse(v.test).replace(' is not ', ' != ').replace(' is ', ' == ')
+            w = f'{kp}.waiting_for_part_start_time'
+            okk = (t == f'{w} == None' and ast.unparse(v.body) in INF and ast.unparse(v.orelse) == w) or (t == f'{w} != None' and ast.unparse(v.orelse) in INF and ast.unparse(v.body) == w)
     if not okk:
-        o.fail(P, 'PartFlowController._downstream_sorting_key_generator', "return float('inf') if not waiting else waiting-since",
-               'the sorting key is not the waiting-since time with None mapped to +infinity', file=PFC.mod.path, line=keyf[2].lineno if keyf else PFC.node.lineno)
+        o.fail(P, f'PartFlowController.{kname or "downstream_priority_sorter"}', "return float('inf') if not waiting else waiting-since",
+               'the sorting key is not the waiting-since time with None mapped to +infinity', file=PFC.mod.path, line=sorter[2].lineno if sorter else PFC.node.lineno)
     else:
         o.witness('key')
     gs = P.method(PFC, 'get_sorted_downstream_list')[1]
@@ -293,7 +309,20 @@ def check(ctx):
             nloops += 1
             o.count()
             where = f'{c_.name if c_ else "<module>"}.{f.name}'
-            if ast.unparse(lp.iter) != 'self.get_sorted_downstream_list()':
+            it_ = lp.iter
+            if isinstance(it_, ast.Name):
+                # a local holding the sorted list is fine when it is computed in the same (innermost) loop body as the hand-over loop,
+                # i.e. afresh for every part that is offered
+                dfs_ = [x for x in ast.walk(f) if isinstance(x, ast.Assign) and any(isinstance(t_, ast.Name) and t_.id == it_.id for t_ in x.targets)]
+
+                def _encl_loop(x):
+                    p_ = m.parents.get(x)
+                    while p_ is not None and not isinstance(p_, (ast.For, ast.While, ast.FunctionDef)):
+                        p_ = m.parents.get(p_)
+                    return p_
+                if len(dfs_) == 1 and _encl_loop(dfs_[0]) is _encl_loop(lp):
+                    it_ = dfs_[0].value
+            if ast.unparse(it_) != 'self.get_sorted_downstream_list()':
                 o.fail(P, where, lp.iter, 'a hand-over loop does not try the downstream devices in priority order', file=m.path, line=lp.lineno)
             else:
                 o.witness(('loop', where))
